@@ -9,6 +9,7 @@ import NanoVerif.Model.Runtime
 import NanoVerif.Model.Compile
 import NanoVerif.Model.Sem
 import NanoVerif.Model.Vmd
+import NanoVerif.Model.Tc
 namespace NanoVerif.Driver
 
 def natList (ws : List String) : Option (List Nat) := ws.mapM String.toNat?
@@ -372,6 +373,20 @@ def semCmd (ws : List String) : String :=
     | _, _ => "bad-op"
   | _ => "bad-op"
 
+/-- `tc <hex source>`: verdict of the specification checker -/
+def tcCmd (hex : String) : String :=
+  match ofHex hex with
+  | none => "bad-op"
+  | some bs =>
+    match lex bs with
+    | .error _ => "lex-error"
+    | .ok lo =>
+      match parseProgram lo.toks with
+      | .error .unsupported => "unsupported"
+      | .error .fuel => "model-fuel"
+      | .error _ => "parse-error"
+      | .ok p => if Tc.tcProgram p then "accept" else "reject"
+
 def frameText : Vmd.Frame → String
   | .output b => "O:" ++ hexOr b
   | .error b => "E:" ++ hexOr b
@@ -422,6 +437,7 @@ def handle (line : String) : String :=
   | "compile" :: [hex] => compileCmd hex
   | "sem" :: ws => semCmd ws
   | "vmd.serve" :: ws => vmdServeCmd ws
+  | "tc" :: [hex] => tcCmd hex
   | _ => "bad-op"
 
 end NanoVerif.Driver
